@@ -38,6 +38,10 @@ SPECIES = {
     "#H": ({"H": 1}, 0),
     "#H2": ({"H": 2}, 0),
     "#CO": ({"C": 1, "O": 1}, 0),
+    # names that repeat an element symbol in separate tokens
+    "CH3OH": ({"C": 1, "H": 4, "O": 1}, 0),
+    "HCOOH": ({"C": 1, "H": 2, "O": 2}, 0),
+    "#CH3OH": ({"C": 1, "H": 4, "O": 1}, 0),
     # dust grains carry charge like any other species (recombination / electron capture on grains)
     "GRAIN0": ({"GRAIN": 1}, 0),
     "GRAIN-": ({"GRAIN": 1}, -1),
@@ -86,7 +90,7 @@ def cases(tier):
         singles = balanced_reactions(QUICK_SPECIES, 2, 3)
         pool = singles[::max(1, len(singles) // 24)][:24]
     else:
-        singles = balanced_reactions([x for x in SPECIES if not x.startswith("GRAIN")], 3, 3)
+        singles = balanced_reactions([x for x in SPECIES if not x.startswith("GRAIN") and x not in ("CH3OH", "HCOOH", "#CH3OH")], 3, 3)
         pool = singles[::max(1, len(singles) // 60)][:60]
     for r, p in singles:
         yield {"reactions": [[r, p]], "family": "single"}
@@ -100,6 +104,9 @@ def cases(tier):
         (["#H2"], ["H2"]),
         (["oH2"], ["pH2"]),
         (["H2", "e-"], ["H", "H-"]),
+        (["CH3OH"], ["CO", "H2", "H2"]),
+        (["HCOOH"], ["CO", "H2", "O"]),
+        (["CH3OH"], ["#CH3OH"]),
         (["e-", "GRAIN0"], ["GRAIN-"]),
         (["H+", "GRAIN-"], ["H", "GRAIN0"]),
         (["H+", "GRAIN0"], ["H", "GRAIN+"]),
